@@ -132,15 +132,19 @@ Section Generic.
     split; [exact E | rewrite E; apply map_length].
   Qed.
 
-  (* the model of generation never fails because of a skipped operation *)
-  Theorem visible_failure_iff : forall st doc,
-    visible_failure method_name tag_key tag_attr tag_class clean_id score py_ident st doc
-    <-> skipped method_name clean_id st doc = [].
+  (* F07f fixed: an operation that cannot be represented makes generation fail — for every document *)
+  Theorem visible_failure_full : forall st doc,
+    visible_failure method_name tag_key tag_attr tag_class clean_id score py_ident st doc.
   Proof.
-    intros st doc. unfold visible_failure, generate. split.
-    - intro H. destruct (skipped method_name clean_id st doc) eqn:E; [reflexivity|].
-      exfalso. assert (X : r :: l <> []) by discriminate. specialize (H X). discriminate.
-    - intros -> H. contradiction H; reflexivity.
+    intros st doc H. unfold generate.
+    destruct (skipped method_name clean_id st doc); [contradiction H; reflexivity | reflexivity].
+  Qed.
+
+  Lemma skipped_nil_guard : forall st doc,
+    skipped method_name clean_id st doc = [] <-> guard_F07f method_name clean_id st doc = true.
+  Proof.
+    intros st doc. unfold skipped, guard_F07f. induction (ops doc) as [|o l IH]; simpl; [split; reflexivity|].
+    destruct (Tags.parse_op_ok method_name clean_id st o); simpl; [exact IH | split; discriminate].
   Qed.
 
   (* ---------------------------------------------------------------- de-dup *)
@@ -886,20 +890,16 @@ Theorem fixed_F07b :
   /\ length (ops doc_F07b) = 2%nat.
 Proof. repeat split; vm_compute; reflexivity. Qed.
 
-(* F07f — the blanket except: a parameter without name makes POST /a vanish, generation succeeds *)
+(* F07f FIXED — regression: a parameter without name now makes generation fail visibly *)
 Definition doc_F07f : list raw_op :=
   [ {| r_path := s_pa; r_method := [103;101;116]; r_node_ok := true; r_opid := Some s_a; r_tags := TAbsent;
        r_resp := [(KStr s_default, true)]; r_params := [] |};
     {| r_path := s_pa; r_method := [112;111;115;116]; r_node_ok := true; r_opid := Some s_b; r_tags := TAbsent;
        r_resp := [(KStr s_default, true)]; r_params := [PNoName] |} ].
-Theorem refuted_F07f :
+Theorem fixed_F07f :
   guard_F07f idf no_clean SOpId doc_F07f = false
-  /\ ~ visible_failure idf idf idf idf no_clean no_score (fun _ => true) SOpId doc_F07f
-  /\ length (parse idf no_clean SOpId doc_F07f) = 1%nat /\ length (ops doc_F07f) = 2%nat.
-Proof.
-  split; [vm_compute; reflexivity|]. split; [|split; vm_compute; reflexivity].
-  intro H. apply visible_failure_iff in H. vm_compute in H. discriminate.
-Qed.
+  /\ generate idf idf idf idf no_clean no_score (fun _ => true) SOpId doc_F07f = Failed.
+Proof. split; vm_compute; reflexivity. Qed.
 
 (* F07c — tags Users, users on one operation *)
 Definition s_Users : str := [85;115;101;114;115].
